@@ -170,22 +170,22 @@ Proof.
     rewrite Hb, Ha. rewrite Hs in Ht. apply allc_app in Ht as [H1 H2]. apply allc_app in H2 as [_ H2]. auto.
 Qed.
 
-(* ---- utils.replaceInline / replaceMatch with macros off ---- *)
-Section Repl.
-Variable s : ienv.
-Variable sr : str -> I str.
+(* ---- utils.replaceInline / replaceMatch ---- *)
+Section ReplGen.
+Variable mr sr : str -> I str.
+Hypothesis Hmr : sr_ok mr.
 Hypothesis Hsr : sr_ok sr.
 
-Lemma replaceInline_good t e : rfree t -> good rfree (replaceInline no_macros sr (Some t) e).
+Lemma replaceInline_good t e : rfree t -> good rfree (replaceInline mr sr (Some t) e).
 Proof.
   intros Ht. unfold replaceInline. eapply good_bind with (P := rfree).
-  - destruct (truthy (e_macros e)); exact Ht.
+  - destruct (truthy (e_macros e)); [apply Hmr; exact Ht|exact Ht].
   - intros a Ha. destruct (truthy (e_spans e)); [apply Hsr; exact Ha|].
     destruct (truthy (e_specials e)); [apply rfree_escape; exact Ha|exact Ha].
 Qed.
 
 Lemma replaceMatch_segs_good m ng : (forall k, rfree (grp_s m k)) ->
-  forall segs e, Forall (fun bm => rfree (fst bm)) segs -> good rfree (replaceMatch_segs no_macros sr m ng segs e).
+  forall segs e, Forall (fun bm => rfree (fst bm)) segs -> good rfree (replaceMatch_segs mr sr m ng segs e).
 Proof.
   intros Hm. induction segs as [|[before dm] t IH]; intros e Hs; cbn [replaceMatch_segs]; [apply allc_nil|].
   inversion Hs as [|? ? Hb Ht]; subst. cbn [fst] in Hb.
@@ -199,7 +199,7 @@ Proof.
 Qed.
 
 Lemma replaceMatch_good m ng repl e : (forall k, rfree (grp_s m k)) -> rfree repl ->
-  good rfree (replaceMatch no_macros sr m ng repl e).
+  good rfree (replaceMatch mr sr m ng repl e).
 Proof.
   intros Hm Hr. unfold replaceMatch. destruct (re_scan re_utils_replaceMatch_0 repl) as [segs tl] eqn:E.
   apply (re_scan_allc (fun x => 2 < x)) in E as [Hl Htl]; [|exact Hr].
@@ -207,6 +207,15 @@ Proof.
   - apply replaceMatch_segs_good; [exact Hm|]. eapply Forall_impl; [|exact Hl]. intros a [Ha _]. exact Ha.
   - intros x Hx. apply allc_app. auto.
 Qed.
+End ReplGen.
+
+Lemma no_macros_ok : sr_ok no_macros.
+Proof. intros t Ht. exact Ht. Qed.
+
+Section Repl.
+Variable s : ienv.
+Variable sr : str -> I str.
+Hypothesis Hsr : sr_ok sr.
 
 Definition frag_rfree (f : frag) : Prop := rfree (f_text f) /\ rfree (f_verb f).
 
@@ -225,8 +234,8 @@ Proof.
   - assert (G1 : forall g, grp m 1 = Some g -> rfree g).
     { intros g Hg. specialize (Hm 1%nat). unfold grp_s in Hm. rewrite Hg in Hm. exact Hm. }
     destruct (r_filter rdef).
-    + apply replaceMatch_good; auto.
-    + destruct (skipBlockAttributes (en_mode s)); [apply allc_nil|apply replaceMatch_good; auto].
+    + apply replaceMatch_good; auto using no_macros_ok.
+    + destruct (skipBlockAttributes (en_mode s)); [apply allc_nil|apply replaceMatch_good; auto using no_macros_ok].
     + destruct (grp m 1) as [g|] eqn:Eg; [|discriminate]. apply htmlSafeModeFilter_rfree; auto.
     + destruct (grp m 1) as [g|] eqn:Eg; [|discriminate]. apply G1. reflexivity.
 Qed.
